@@ -168,6 +168,9 @@ func genCall(r *Run, agent int, users []string, model map[string]*AUser, vias []
 		c.User = []string{"newbie", "zed", u}[r.Choose("add-name", 3)]
 	case 5, 6:
 		c.Kind, c.PW = "update", fmt.Sprintf("updated-pw-%d", r.Choose("pwn", 50))
+		if m := model[u]; m != nil && r.Choose("update-to-same-password", 4) == 0 {
+			c.PW = m.PW // a retried or redundant change: the password the record already holds
+		}
 	case 7:
 		c.Kind = "remove"
 		if u == "root" {
@@ -309,6 +312,9 @@ func propC10(r *Run) {
 		}
 		if r.Choose("fs-yields", 8) == 0 {
 			w.fsYields()
+		}
+		if len(vias) > 1 && r.Choose("net-yields", 4) == 0 {
+			w.netYields()
 		}
 		// dispatcher slowness: how reluctant the scheduler is to let the service loops run
 		slow := []int{1, 1, 3, 10, 40}[r.Choose("dispatcher-slowness", 5)]
